@@ -57,7 +57,8 @@ def pos_cases(draw):
         elif r == 1:
             claims[n] = draw(st.one_of(st.integers(0, 4 * 10**9), st.floats(0, 4e9)))
     transport = draw(st.sampled_from(["jws", "jws", "jwe"]))
-    hdr = draw(st.fixed_dictionaries({}, optional={"typ": st.sampled_from(["JWT", "at+jwt", "JOSE"]), "cty": st.just("json")}))
+    hdr = draw(st.fixed_dictionaries({}, optional={"typ": st.sampled_from(["JWT", "at+jwt", "JOSE", "jeton+jwt-é"]), "cty": st.sampled_from(["json", "données", "データ"]),
+                                                      "x5t": st.just("dGh1bWI")}))
     if transport == "jws":
         alg = draw(st.sampled_from(gk.JWS_ALGS))
         key = draw(gk.jws_key_for(alg))
